@@ -124,8 +124,12 @@ def run(ctx):
     totals = {}
     for (f, b, t, kind, what) in all_sites:
         ok, rule, why = D.discharge(f, b, t, kind, what)
-        ctx.oblige(ok)
         key = "%s/%s" % (short(f.name), what)
+        if ok is None:
+            # the argument that discharges this site on the pinned tree could not be evaluated on this code (its anchors moved)
+            ctx.undecided("C07-census", key, "%s site `%s` in %s: %s" % (kind, what, f.name, why), where_of(f, t))
+            continue
+        ctx.oblige(ok)
         totals[(f.name, what)] = totals.get((f.name, what), 0) + 1
         ctx.inst("C07-census", key + ("@bb%d" % b), {"kind": kind, "discharged_by": rule if ok else None}, nontrivial=True)
         if not ok:
@@ -159,7 +163,7 @@ def run(ctx):
         by_kind[kind] = by_kind.get(kind, 0) + 1
     ctx.extra_cov["sites_by_kind"] = by_kind
     if by_kind.get("unwrap", 0) < 40 or len(all_sites) < 90:
-        ctx.report("C07-census", "floor", "the census found only %d sites (%s); expected >= 90 with >= 40 unwrap-family calls" % (len(all_sites), by_kind))
+        ctx.undecided("C07-census", "floor", "the census found only %d sites (%s); the pinned tree has >= 90 with >= 40 unwrap-family calls" % (len(all_sites), by_kind))
 
     # ------------------------------------------------------------------ C07-main (bin)
     ctx.rule("C07-main", "front-end I/O unwraps in main are the only panic sites of the binary")
@@ -900,6 +904,17 @@ class Discharger:
         if kind != "assert" or not (what.startswith("DivisionByZero") or what.startswith("RemainderByZero")):
             return None
         if f.name == "<values::Number as std::ops::Div>::div":
+            # symbolic table (numtables.zero_guard_table): on every path that reaches one of the compiler's divide-by-zero assertions
+            # the tests passed so far exclude a zero divisor
+            from . import numtables
+            sub0 = Ctx("C09", self.ctx.tier, self.ctx.seed)
+            sub0._fb = self.ctx._fb
+            if not hasattr(self, "_zg"):
+                self._zg = numtables.rule_zero_guards(sub0, "C09-exact")
+            if self._zg is True:
+                return (True, "D-div-guarded", "on every path to the assertion the tests passed exclude a zero divisor (symbolic table, C09-exact)")
+            if self._zg is False:
+                return (False, "D-div-guarded", "the division is reached with a zero divisor (C09-exact/div/zero-guards)")
             # shared rule: the divisor passed check_division_by_zero on this path
             from .c08 import div_zero_rule
             sub = Ctx("C08", self.ctx.tier, self.ctx.seed)
@@ -934,7 +949,7 @@ class Discharger:
             try:
                 c19.run(sub)
             except Exception as e:  # pragma: no cover
-                return (False, "D-const-input", "C19 analysis failed: %r" % (e,))
+                return (None, "D-const-input", "the census of shared state (C19) could not be evaluated: %r" % (e,))
             clean = not any(r["rule"] == "C19-global-census" for r in sub.reports)
             if not clean:
                 return (False, "D-const-input", "the bundled libraries are parsed with syntax state shared between instances (C19-global-census)")
